@@ -23,9 +23,9 @@ import (
 	"os"
 	"os/exec"
 	"regexp"
-	"sort"
 	"runtime"
 	"runtime/debug"
+	"sort"
 	"strconv"
 	"strings"
 	"sync"
@@ -376,17 +376,17 @@ func main() {
 		"configurations":           len(cfgs),
 		"configurations_multi_GiB": len(huge),
 		"configurations_with_resident_multi_GiB_buffers(max 4 at a time)": len(heavy),
-		"engines":                  engines,
-		"sources":                  "local: guest, guestf(fused), host; imported: guest(owner), iguest, iguestf(importer), host",
-		"delta_alphabet":           "0,1,2,bound-cur,bound-cur+1,max-cur,max-cur+1,65535,65536,2^31,2^32-1",
-		"history_depth":            tier.Depth,
-		"state_key":                map[bool]string{false: "(pages, capacity)", true: "(pages, capacity, source of last successful grow)"}[tier.KeyLastSrc],
+		"engines":        engines,
+		"sources":        "local: guest, guestf(fused), host; imported: guest(owner), iguest, iguestf(importer), host",
+		"delta_alphabet": "0,1,2,bound-cur,bound-cur+1,max-cur,max-cur+1,65535,65536,2^31,2^32-1",
+		"history_depth":  tier.Depth,
+		"state_key":      map[bool]string{false: "(pages, capacity)", true: "(pages, capacity, source of last successful grow)"}[tier.KeyLastSrc],
 		"huge_realloc_rule": map[string]string{
 			"quick":    "Go-allocator reallocation to >=65535 pages: 2 transitions (compiler; min=1, max absent; local limit=65535 by the fused guest function, imported limit=65536 by the host); resulting states are leaves",
 			"thorough": "from every initial state straight to the bound, by the host or by the fused guest function (fixed parity of the configuration); for (min=1, max absent) declarations by every source and the resulting states are expanded; elsewhere resulting states are leaves",
 		}[tier.Name],
-		"per_class":                perClass,
-		"wall_children_s":          float64(int(time.Since(t0).Seconds()*10)) / 10,
+		"per_class":       perClass,
+		"wall_children_s": float64(int(time.Since(t0).Seconds()*10)) / 10,
 	}
 	run.Finish(fw.Coverage{
 		Evaluations: total.Evals, DistinctNontriv: total.States, States: total.States, Transitions: total.Transitions, TracesValidated: total.Transitions,
